@@ -294,7 +294,8 @@ def check_scheduled(W, bs, n_batches, kind, p):
         # epochs: 2 epochs (or 1) of a dataset whose length leaves a dropped remainder
         ep = 2 if n_batches % 2 == 0 else 1
         per = n_batches // ep
-        kw = dict(epochs=ep, dataset_len=per * bs + (bs - 1), world_size=1, drop_last=True)
+        ws = 1 + (n_batches + W) % 2  # world sizes 1 and 2: dataset_len is the global length
+        kw = dict(epochs=ep, dataset_len=(per * bs + (bs - 1)) * ws + (ws - 1), world_size=ws, drop_last=True)
     saved = kdt_mod.get_worker_info
     kdt_mod.get_worker_info = lambda: Info()
     try:
